@@ -34,6 +34,10 @@ class WeightedGraph:
         i, j = item
         self.N.add(i)
         self.N.add(j)
+        if len(self.__dict__) > 5:
+            # forget the cached block decomposition; it depends on the edges
+            for k in ("blocks", "buckets", "Blocks"):
+                self.__dict__.pop(k, None)
         if value != self.WeightType.zero:
             self.E[i, j] = value
             self.incoming[j].add(i)
